@@ -213,6 +213,28 @@ func run(c *h.Ctx, cs Case) {
 		}
 		c.P.Class("policy-view:failing-selector")
 	}
+	// (1c) identity does nothing: the same segments with every bracket segment written in its dot-spelled form
+	// (.a.["b"].[0]: the extra dots are identity segments) resolve to the same outcome - whatever that outcome is,
+	// also where the text leaves it open (after an optional segment that found nothing)
+	if cs.Text == "" {
+		dotted := cs.Sel.TextDotted()
+		if dotted != text {
+			if o2, err := implSelect(dotted, data); err == nil {
+				same := o2.st == got.st
+				if same && got.st == sel.Value {
+					same = equalNodes(o2.node, got.node, multi)
+				}
+				if !same {
+					c.Fail("C12/identity/dotted-spelling-differs", "Select(%q) gives %s %s, the same segments spelled with identity dots, Select(%q), give %s %s (data %s)", text, got.st, got.err, dotted, o2.st, o2.err, canon(data))
+					return
+				}
+				c.P.Class("identity:dotted-spelling-agrees")
+			} else if got.err == "" {
+				c.Fail("C12/identity/dotted-spelling-rejected", "selector %q parses, its dot-spelled form %q does not: %v", text, dotted, err)
+				return
+			}
+		}
+	}
 	// (2) compositionality with the implementation as its own step function
 	for k := 1; k < len(cs.Sel); k++ {
 		s1, s2 := cs.Sel[:k], cs.Sel[k:]
